@@ -29,6 +29,8 @@ import (
 	"verifsim/sim"
 )
 
+var c09TraceN int
+
 type c09Task struct {
 	Name string `json:"name"`
 	Ops  []vOp  `json:"ops"`
@@ -450,10 +452,11 @@ func c09Exec(r *vRun, s *c09State, client int, writers map[int]*c09Writer, chans
 		// precondition of the recorded C04 finding (delete bound strictly inside a domain
 		// whose start precedes its first sample): such a delete corrupts the pointer,
 		// so the rest of the run is attributed to that finding
+		snap := s.rec.Snapshot()
 		s.mu.Lock()
 		for _, k := range op.Keys {
 			var have []int64
-			for _, h := range s.rec.Ops {
+			for _, h := range snap {
 				if in := h.Input.(hist.TSOp); in.Ch == k && in.Kind == "add" {
 					have = append(have, in.TS...)
 				}
@@ -591,11 +594,57 @@ func runC09(t *testing.T, c c09Case, st *drv.Stats) (fail *drv.Failure) {
 				}
 				synctest.Wait()
 			}
+			if os.Getenv("VERIF_RACE") != "" {
+				// Race-detector tier: the tasks run as free goroutines. Under the
+				// serialising scheduler every hand-over is a happens-before edge, which
+				// would hide exactly the unsynchronised accesses this tier looks for.
+				var wg sync.WaitGroup
+				for ti, task := range c.Tasks {
+					ti, task := ti, task
+					wg.Add(1)
+					go func() {
+						defer wg.Done()
+						defer func() {
+							if p := recover(); p != nil {
+								s.fail(drv.Failf("panic", "task:"+drv_firstLine(fmt.Sprint(p)), "task %s panic: %v\n%s", task.Name, p, stackTrim()))
+							}
+						}()
+						writers := map[int]*c09Writer{}
+						defer func() {
+							for _, w := range writers {
+								_ = w.w.Close()
+							}
+						}()
+						for _, op := range task.Ops {
+							if f := c09Exec(r, s, ti+1, writers, chans, op); f != nil {
+								s.fail(f)
+								return
+							}
+						}
+					}()
+				}
+				wg.Wait()
+				st.Probe("race_tier_free_running_case")
+				if len(s.fails) > 0 {
+					fail = s.fails[0]
+				}
+				_ = r.db.Close()
+				synctest.Wait()
+				return
+			}
 			r.core.Yields = true
 			sc := sim.New(c.Sched, sim.NewChoices(c.Seed))
 			if os.Getenv("VERIF_DEBUG") != "" {
 				sc.KeepLog = 1 << 20
 				defer func() { fmt.Println("DEBUG TRACE\n" + strings.Join(sc.Trace, "\n")) }()
+			}
+			if d := os.Getenv("VERIF_TRACEDIR"); d != "" {
+				sc.KeepLog = 1 << 20
+				c09TraceN++
+				n := c09TraceN
+				defer func() {
+					_ = os.WriteFile(d+"/"+strconv.Itoa(n)+".trace", []byte(strings.Join(sc.Trace, "\n")), 0o644)
+				}()
 			}
 			sim.Install(sc)
 			tasks := sc.NewTasks()
@@ -746,6 +795,10 @@ func runC09(t *testing.T, c c09Case, st *drv.Stats) (fail *drv.Failure) {
 				st.Probe("info_concurrent_reads_linearizable")
 			}
 		}
+	}
+	if os.Getenv("VERIF_RACE") != "" {
+		st.Case(drv.Hash64(fmt.Sprint(c.Seed), fmt.Sprint(len(c.Tasks)), fmt.Sprint(s.rec.Len())), len(c.Tasks) >= 2)
+		return nil
 	}
 	st.Case(traceHash, steps >= 40 && len(c.Tasks) >= 2)
 	return nil
